@@ -127,7 +127,7 @@ REAL__dump(double d, int canonical, asn_app_consume_bytes_f *cb, void *app_key) 
 	char local_buf[64];
 	char *buf = local_buf;
 	ssize_t buflen = sizeof(local_buf);
-	const char *fmt = canonical ? "%.17E" /* Precise */ : "%.15f" /* Pleasant*/;
+	const char *fmt;
 	ssize_t ret;
 
 	/*
@@ -157,6 +157,16 @@ REAL__dump(double d, int canonical, asn_app_consume_bytes_f *cb, void *app_key) 
 		}
 		return (cb(buf, buflen, app_key) < 0) ? -1 : buflen;
 	}
+
+	if(canonical < 0) {
+		/*
+		 * BASIC-XER: the pleasant form, if it reads back as the same
+		 * value (it has no more than 15 digits after the decimal point).
+		 */
+		ret = snprintf(buf, buflen, "%.15f", d);
+		canonical = (ret > 0 && ret < buflen && strtod(buf, 0) != d);
+	}
+	fmt = canonical ? "%.17E" /* Precise */ : "%.15f" /* Pleasant*/;
 
 	/*
 	 * Use the libc's double printing, hopefully they got it right.
@@ -381,7 +391,7 @@ REAL_encode_xer(const asn_TYPE_descriptor_t *td, const void *sptr, int ilevel,
 	if(!st || !st->buf || asn_REAL2double(st, &d))
 		ASN__ENCODE_FAILED;
 
-	er.encoded = REAL__dump(d, flags & XER_F_CANONICAL, cb, app_key);
+	er.encoded = REAL__dump(d, (flags & XER_F_CANONICAL) ? 1 : -1, cb, app_key);
 	if(er.encoded < 0) ASN__ENCODE_FAILED;
 
 	ASN__ENCODED_OK(er);
